@@ -42,3 +42,15 @@ pub broadcast axiom fn axiom_str_borrowed_key_maps<V>(m: Map<String, V>, k: &str
     ensures #[trigger] vstd::std_specs::hash::maps_borrowed_key_to_value(m, k, v) <==> (exists|s: String| #[trigger] m.contains_key(s) && s@ == k@ && m[s] == v);
 pub broadcast axiom fn axiom_string_is_its_characters(a: String, b: String)
     ensures #[trigger] a@ == #[trigger] b@ ==> a == b;
+
+// TRUSTED (std): `<[T]>::binary_search`.  Complete for a slice that is sorted by `Ord` (then `Err` means "not present");
+// for an unsorted slice std leaves the result unspecified, so only "an `Ok` index holds an equal element" is known.
+// (Present so that a change from a linear scan to a binary search is decided: right on a sorted table, wrong on an unsorted one.)
+pub open spec fn sorted_by_cmp<T: Ord>(s: Seq<T>) -> bool {
+    forall|i: int, j: int| 0 <= i < j < s.len() ==> vstd::std_specs::cmp::OrdSpec::cmp_spec(&s[i], &s[j]) is Less || vstd::std_specs::cmp::OrdSpec::cmp_spec(&s[i], &s[j]) is Equal
+}
+pub assume_specification<T: Ord> [<[T]>::binary_search] (s: &[T], x: &T) -> (r: Result<usize, usize>)
+    ensures
+        r matches Ok(i) ==> i < s@.len() && vstd::std_specs::cmp::OrdSpec::cmp_spec(&s@[i as int], x) is Equal,
+        r matches Err(i) ==> i <= s@.len(),
+        <T as vstd::std_specs::cmp::OrdSpec>::obeys_cmp_spec() && sorted_by_cmp(s@) ==> (r is Err ==> forall|i: int| 0 <= i < s@.len() ==> !(vstd::std_specs::cmp::OrdSpec::cmp_spec(&(#[trigger] s@[i]), x) is Equal));
